@@ -213,3 +213,33 @@ CHECKS["C18"]["text"] += (" Stale-output layer as in C04 (transpiling over the l
 CHECKS["C19"]["text"] += (" Library-file-name layer: 10 names (other / no extension, versioned soname, sub-directory, blank in the name) each beside a differently answering decoy, 7"
                           " missing names beside an existing look-alike; list arguments (the probe renders vectors and optionals).")
 CHECKS["C20"]["text"] = CHECKS["C20"]["text"].replace("x 5 entry kinds", "x 6 entry kinds (file, non-empty directory, empty directory, symlink to file / to directory / dangling)")
+
+# ---- additions made in round 5 / the neutral round (N1) ----
+NOTES += (" Oracles compare what the properties name (values, kinds, order, positions, labels, exit classes); what merely identifies those things in the tool's"
+          " output - the closing line of a failed compilation, the banner and layout of the run-time report, the wording of failure messages - is learnt by"
+          " calibration from the binary under test (mcheck/core/driver.py), see DESIGN.md section 14.")
+CHECKS["C01"]["text"] += (" Conditions now range over 19 forms: four have a bare list element or object field (a reference into its container) as the condition or as an operand of ! / &&.")
+CHECKS["C02"]["text"] += (" (e) fixed-shape lists (4 asymmetric shapes) x every list method (17 call forms): the method is refused or every position keeps a value of its declared kind;"
+                          " (f) consumer positions x carriers: the 57 syntactic positions of C07's site catalogue fed with an int / bool operand that reaches them through a list element (variable or"
+                          " literal index), an object field, an element of a nested list, an unwrapped optional or a plain variable, inside a closure and inside one function, each program being one"
+                          " trace of the reference interpreter; plus 18 snapshot programs (a number / bool read out of a container keeps its value when the container is changed afterwards).")
+CHECKS["C02"]["note"] = (CHECKS["C02"].get("note", "") + " A run-time failure counts as a dynamic type error when it belongs to none of the defined failure classes; the classes are recognised by"
+                         " patterns learnt from 39 canonical failing programs of the binary under test plus the literal wording of the pinned tree.").strip()
+CHECKS["C05"]["text"] += (" An eighth carrier writes both operands as literals in place (the compiler then evaluates the operator; a refusal is right exactly when the operation fails);"
+                          " unary minus and `!` are also taken through every carrier, the element / field being read again afterwards (the operator works on a copy).")
+CHECKS["C06"]["text"] += (" Optional trees: every nesting of two `or`s over nil / present literals, alone, under `get`, compared with nil, in arithmetic - judged against the meaning of"
+                          " or / get / == nil itself, because the unfolded rendering of some is ill-typed by the language's own rules.")
+CHECKS["C07"]["text"] += (" Sites whose captured name occurs only in an expression statement (callee, argument, receiver) and seven bool consumer sites.")
+CHECKS["C10"]["text"] += (" Names brought in by `import a, b from m` are written through every form (rebinding forms are judged on the module's own view of the member, as the repository's test"
+                          " not_import_const_bypass prescribes; element stores through such a name are a known finding). Const objects and const nested lists are written THROUGH by 11 path forms"
+                          " (field, field op-assignment, nested index, parenthesised inner step, element / field-list replacement).")
+CHECKS["C11"]["text"] += (" Visibility matrix: modules = all sequences of <= 2 (thorough 3) declarations over {variable, function, class, type alias} x {exported, hidden}; the importer reaches for"
+                          " every declaration through `m.x` and `import x from m`: exported ones must work, hidden ones must be refused at compile time.")
+CHECKS["C14"]["text"] += (" Float receivers include the doubles at and next to every conversion bound (2^31, 2^63, 2^64, 2^127 and their neighbours, both signs).")
+CHECKS["C15"]["text"] += (" Carrier leaves: silent reads of a list element (variable index) or an object field, int and bool, and optionals produced by a built-in (present, nil, held in a variable),"
+                          " at depth 1 in all contexts and depth 2 by rule 1.")
+CHECKS["C16"]["text"] += (" (e) import statements: 47 path spellings (existing / missing file, directory, `.`, `..`, trailing separators, self import, odd extensions, odd characters) x 7 import forms"
+                          " x 10 syntactic hosts, compiled in a directory that holds a module, a sub-directory, an empty file and a stray .mmm file.")
+CHECKS["C17"]["text"] += (" The report is located by markers learnt from the binary; the trace is the sequence of frame lines (a label `<file>.mmm#<function>` / `<native code>#<built-in>` plus"
+                          " decoration), the assert position may stand anywhere in the report, the wording of messages is recorded, not judged.")
+CHECKS["C20"]["text"] += (" `clean` must succeed on every explored tree (none contains anything it cannot handle); the reported count is any integer on a stdout line that names no path.")
